@@ -186,7 +186,26 @@ class SimConn:
         elif kind == "fin":
             tr._sim_eof()
         elif kind == "rst":
-            tr._sim_reset()
+            hops = self.net.rst_window_hops
+            if hops and not (tr._conn_lost or tr._closing):
+                # the kernel has the RST, the event loop has not polled the socket yet: for a few loop iterations the transport
+                # still looks healthy while socket calls already fail (CPython: write_eof -> sock.shutdown raises ENOTCONN)
+                tr._reset_pending = True
+                self.net.ctx.probe("rst_pending_window")
+                self.net.ctx.event("rst_pending", self.no)
+                if self.net.on_rst_pending:
+                    self.net.on_rst_pending(self)
+
+                def process(n=hops):
+                    if n > 0:
+                        self.net.loop.call_soon(process, n - 1)
+                    else:
+                        tr._reset_pending = False
+                        tr._sim_reset()
+
+                self.net.loop.call_soon(process, hops - 1)
+            else:
+                tr._sim_reset()
 
     # ---- controller -> accessory --------------------------------------------------------
     def client_write(self, data: bytes) -> None:
@@ -267,6 +286,9 @@ class SimTransport(asyncio.Transport):
         if self._closing or self._eof:
             return
         self._eof = True
+        if getattr(self, "_reset_pending", False):
+            # selector_events._SelectorSocketTransport.write_eof: self._sock.shutdown(SHUT_WR) on a socket the peer has reset
+            raise OSError(107, "Transport endpoint is not connected")
         self.conn.c2a.push(("fin", None), self.conn.net.latency(self.conn, "c2a"))
 
     def can_write_eof(self) -> bool:
@@ -370,6 +392,8 @@ class SimNet:
         self.connect_decider = None  # callable(host) -> (outcome, delay)
         self.pre_deliver = None
         self.post_deliver = None
+        self.rst_window_hops = int(profile.get("rst_window_hops", 0) or 0)  # loop iterations between RST arrival and its processing
+        self.on_rst_pending = None
         self.open_set: set = set()
         self.accept_cb = None
         loop.net = self
@@ -801,6 +825,8 @@ class IpWorld:
                 yield ch.choice("acc.frame", [1024, 1, 2, 15, 16, 17, 255, 256, 511, 512, 1023, 1024, 3, 700])
 
     def write_status(self, aid, iid, value):
+        if isinstance(value, tuple) and value and value[0] == "ev":
+            return self.status_plan.get(("e", aid, iid), 0) if value[1] else 0  # refusing to send events (unsubscribing always works)
         return self.status_plan.get(("w", aid, iid), 0)
 
     def read_status(self, aid, iid):
